@@ -70,7 +70,7 @@ def fails_now(prog: list) -> bool:
 def main() -> None:
     run = Run("C01", "translation_validation")
     run.forbid()
-    run.require_vo(["Ssb/EquivSound.v", "Ssb/Machine.v", "Lang/SrcSem.v"])
+    run.require_vo(["Ssb/EquivSound.v", "Ssb/Machine.v", "Lang/SrcSem.v", "Ssb/Silent.v", "Comp/PopSem.v", "Comp/RemoveSem.v", "Comp/TableRight.v", "Comp/BackEnd.v"])
     run.props("Props/TablesAgree.v")
     run.props("Props/C01.v")
     n_random = 1500 if run.tier == "quick" else 20000
@@ -105,6 +105,56 @@ def main() -> None:
             if r["err"] not in ("Compiler",):
                 pass  # C10 decides about error classes
     run.count("compiled_ok", len(idx))
+    # stage by stage (diagnosis and a tighter tie): the pseudo code the handlers emit must mean what the source
+    # means, and every label pass must keep that meaning (Comp/PopSem.v), decided by the same verified checker
+    sub = idx[: (500 if run.tier == "quick" else 4000)]
+    caps = run_impl([("capture:compile_capture", texts[i]) for i in sub])
+    from capture import pops_sexp
+    from core import program_sexp
+    cmds, where = [], []
+    for i, c in zip(sub, caps):
+        cap = c.get("cap", {})
+        if not c.get("ok") or not all(k in cap for k in ("strip_in", "strip_out", "fin_in", "fin_out", "rem_out")):
+            continue
+        pp = lambda k: [A("pops"), pops_sexp(cap[k])]  # noqa: E731
+        for stage, a, b in (("handlers", src_side(progs[i][1]), pp("strip_in")), ("strip_last_label", pp("strip_in"), pp("strip_out")),
+                            ("LabelFinalizer", pp("fin_in"), pp("fin_out")),
+                            ("OpsLabelJumpToRemover", pp("fin_out"), [A("ssb"), program_sexp(cap["rem_out"])])):
+            cmds.append([A("equiv"), a, b])
+            where.append((i, stage))
+    # the premises of the back-end theorem (Props/C01.v C01_label_resolution_preserves) hold for what the real passes
+    # produce: evaluated on every captured compilation
+    bcmds, bwhere = [], []
+    for i, c in zip(sub, caps):
+        cap = c.get("cap", {})
+        if c.get("ok") and "fin_out" in cap and "rem_out" in cap:
+            bcmds.append([A("backend_ok"), pops_sexp(cap["fin_out"]), program_sexp(cap["rem_out"])])
+            bwhere.append(i)
+    prem_first = None
+    for i, b in zip(bwhere, run_driver(bcmds)):
+        good = bool(b.get("backend_ok"))
+        # a source with a cycle of silent moves is outside the property; there the premise rightly fails
+        if not good and i in {j for j, eq in zip(idx, eqs) if eq["r"] == "cycle"}:
+            run.count("backend-theorem premises: silent cycle (outside the property)")
+            continue
+        run.count("backend-theorem premises:" + ("hold" if good else "FAIL"))
+        if not good and prem_first is None:
+            prem_first = (progs[i][0], texts[i])
+    if prem_first is not None:
+        run.correspondence_broken("premises of C01_label_resolution_preserves (backend_ok)",
+                                  "the output of LabelFinalizer does not satisfy the side conditions of the back-end theorem",
+                                  {"case": prem_first[0], "source": prem_first[1]})
+    stage_first = None
+    ok_end = {i for i, eq in zip(idx, eqs) if eq["r"] == "ok"}
+    for (i, stage), eq in zip(where, run_driver(cmds)):
+        good = eq["r"] in ("ok", "cycle") or (eq["r"] == "err")
+        run.count(f"stage {stage}:" + ("ok" if good else eq["r"]))
+        if not good and i in ok_end and stage_first is None:
+            stage_first = (stage, progs[i][0], texts[i], {k: v for k, v in eq.items() if k not in ("g1", "g2")})
+    if stage_first is not None:
+        run.correspondence_broken("stage validation (Comp/PopSem.v): " + stage_first[0],
+                                  "a stage changes the meaning of the pseudo code although the compiled program behaves like the source",
+                                  {"case": stage_first[1], "source": stage_first[2], "equiv": stage_first[3]})
     if idx:
         i0 = idx[0]
         run.sample({"case": progs[i0][0], "source": texts[i0], "equiv": {k: v for k, v in eqs[0].items() if k in ("r", "pairs", "n1", "n2")}})
